@@ -177,7 +177,11 @@ MESSAGE_LAYOUTS = {
     ( 'class', 'unconnected_send' ):	[ [ _svc(), ( 'EPATH', 'path' ), ( 'B', 'priority' ), ( 'B', 'timeout_ticks' ), ( '<H', 'length' ), ( 'data', 'request' ),
                                             ( 'route_path', 'route_path' ) ],
                                           [ _svc(), ( 'EPATH', 'path' ), ( 'B', 'priority' ), ( 'B', 'timeout_ticks' ), ( '<H', 'length' ), ( 'data', 'request' ),
-                                            ( 'pad', 1 ), ( 'route_path', 'route_path' ) ] ],
+                                            ( 'pad', 1 ), ( 'route_path', 'route_path' ) ],
+                                          # the Unconnected Send error reply ( service | 0x80, reserved, status ) and the "simple" form in which the
+                                          # encapsulated request / reply is carried without the Unconnected Send wrapper
+                                          [ _svc(), ( 'pad', 1 ), ( 'status', 'status' ) ],
+                                          [ ( 'data', 'request' ) ] ],
     ( 'class', 'identity_object' ):	[ [ ( '<H', 'version' ), ( '>h', 'sin_family' ), ( '>H', 'sin_port' ), ( '>I', 'sin_addr' ), ( 'pad', 8 ),
                                             ( '<H', 'vendor_id' ), ( '<H', 'device_type' ), ( '<H', 'product_code' ), ( '<H', 'product_revision' ),
                                             ( '<H', 'status_word' ), ( '<I', 'serial_number' ), ( 'SSTRING', 'product_name' ), ( 'B', 'state' ) ] ],
